@@ -527,6 +527,7 @@ where
                 let failed = std::cell::Cell::new(false);
                 let local_cell = std::cell::RefCell::new(&mut local);
                 let count = std::cell::Cell::new(0u32);
+                let last_fail: std::cell::RefCell<Option<Fail>> = std::cell::RefCell::new(None);
                 let res = runner.run(&strategy(), |case: C| {
                     if stop_all.load(Ordering::Relaxed) && !failed.get() {
                         return Ok(());
@@ -563,6 +564,7 @@ where
                         Ok(()) => Ok(()),
                         Err(fail) => {
                             failed.set(true);
+                            *last_fail.borrow_mut() = Some(fail.clone());
                             Err(TestCaseError::fail(fail.signature))
                         }
                     }
@@ -573,10 +575,14 @@ where
                     let mut obs = Obs::default();
                     let fail = match run_case(hseed, check, &shrunk, &mut obs) {
                         Err(f) => f,
-                        Ok(()) => Fail::new(
-                            "non-reproducible",
-                            "shrunk case passed when re-run (nondeterministic failure)",
-                        ),
+                        Ok(()) => match last_fail.borrow_mut().take() {
+                            // a nondeterministic failure: report what was observed on this very case
+                            Some(mut f) => {
+                                f.message = format!("{}\n  (observed once; the saved case passed when re-run immediately: schedule-dependent)", f.message);
+                                f
+                            }
+                            None => Fail::new("non-reproducible", "shrunk case passed when re-run (nondeterministic failure)"),
+                        },
                     };
                     if findings.known(&ctx.prop, &fail.signature).is_none() {
                         let path = write_replay(ctx, name, &shrunk, &fail);
@@ -746,7 +752,7 @@ pub struct PropReport {
 }
 
 /// Write evidence, print VIOLATION / KNOWN-FINDING lines, return exit code.
-pub fn finish(ctx: &Ctx, rep: PropReport) -> i32 {
+pub fn finish(ctx: &Ctx, findings: &Findings, rep: PropReport) -> i32 {
     let mut evaluations = 0u64;
     let mut nontrivial = 0u64;
     let mut classes = BTreeMap::new();
@@ -825,11 +831,17 @@ pub fn finish(ctx: &Ctx, rep: PropReport) -> i32 {
             return 2;
         }
     }
-    for (sig, (what, n)) in &known {
-        println!(
-            "KNOWN-FINDING: property={} {} [signature={} hits={}]",
-            ctx.prop, what, sig, n
-        );
+    // every listed (unrepaired) finding of this property is announced on every run, with the
+    // number of times this run actually hit it
+    if ctx.replay.is_none() {
+        for e in findings.entries.iter().filter(|e| e.status == "known" && e.property == ctx.prop) {
+            let hits = known.get(&e.signature).map(|x| x.1).unwrap_or(0);
+            println!("KNOWN-FINDING: property={} {} [signature={} hits_in_this_run={}]", ctx.prop, e.what, e.signature, hits);
+        }
+    } else {
+        for (sig, (what, n)) in &known {
+            println!("KNOWN-FINDING: property={} {} [signature={} hits_in_this_run={}]", ctx.prop, what, sig, n);
+        }
     }
     println!(
         "[{}] tier={} seed={} evaluations={} distinct_nontrivial={} violations={} wall={:.1}s",
